@@ -409,6 +409,8 @@ def specialise(v, asg):
         return IndexV(specialise(v.base, asg), specialise(v.idx, asg))
     if isinstance(v, OpV):
         return OpV(v.op, [specialise(a, asg) for a in v.args])
+    if isinstance(v, TagV) and isinstance(v.n, V):
+        return TagV(v.cls, specialise(v.n, asg))
     return v
 
 
@@ -465,6 +467,8 @@ def split_guards(v, acc=None):
     elif isinstance(v, CallV):
         for a in v.args:
             split_guards(a, acc)
+    elif isinstance(v, TagV) and isinstance(v.n, V):
+        split_guards(v.n, acc)
     return acc
 
 
@@ -869,6 +873,12 @@ class Interp:
                 self.bindpat(sp, Sel(v, "[]"), fr)
             if p.get("mid"):
                 self.bindpat(p["mid"], Sel(v, "[..]"), fr)
+            fixed = len(p["before"]) + len(p["after"])
+            irrefutable_elems = all(sp["k"] in ("Wild", "Binding") and not sp.get("sub") for sp in p["before"] + p["after"])
+            if irrefutable_elems and fixed == 0 and not p.get("mid"):
+                return atom("empty", core(v).r())          # `[]`
+            if irrefutable_elems and fixed == 1 and p.get("mid") and p["mid"]["k"] in ("Wild", "Binding"):
+                return Not(atom("empty", core(v).r()))     # `[_, ..]` / `[first, rest @ ..]`
             return atom("opaque", "slicepat(%s)" % core(v).r())
         return atom("opaque", "pat:%s" % k)
 
@@ -1293,6 +1303,35 @@ class Interp:
         parts = [self.expand(g) for g in f[1]]
         return And(*parts) if f[0] == "and" else Or(*parts)
 
+    def _trivial_accessor(self, name, body):
+        """a function whose whole body is a field selection of a parameter, possibly borrowed / dereferenced / passed
+        through as_ref()-like adaptors"""
+        cache = self.__dict__.setdefault("_triv", {})
+        if name in cache:
+            return cache[name]
+        e = body.get("hir") or {}
+        ok = False
+        for _ in range(8):
+            k = e.get("k")
+            if k == "Block" and not e.get("stmts") and e.get("expr") is not None:
+                e = e["expr"]
+            elif k in ("AddrOf", "Unary"):
+                e = e["e"]
+            elif k == "MethodCall" and e.get("name") in ("as_ref", "as_str", "as_slice", "as_deref", "as_bytes", "borrow", "deref") and not e.get("args"):
+                e = e["recv"]
+            elif k == "Field":
+                b = e
+                while b.get("k") == "Field":
+                    b = b["base"]
+                while b.get("k") in ("Unary", "AddrOf"):
+                    b = b["e"]
+                ok = b.get("k") == "Path" and b.get("res") == "local"
+                break
+            else:
+                break
+        cache[name] = ok
+        return ok
+
     def _is_fnitem(self, x):
         """a named local function used as a value (callback)"""
         x = core(x)
@@ -1527,6 +1566,18 @@ class Interp:
                     sm = self._some(c0)
                     return BoolV(And(sm, body) if last == "any" else Or(Not(sm), body))
                 body = self.to_formula(apply_pred(Sel(c0, "[]")))
+                elr_ = Sel(c0, "[]").r()
+                if last == "any" and body is not True and body is not False and body[0] == "atom":
+                    x_ = body[1]
+                    c_ = None
+                    if x_[0] == "variant" and x_[1] == elr_:
+                        c_ = atom("contains", c0.r(), x_[2])
+                    elif x_[0] == "eq" and elr_ in (x_[1], x_[2]):
+                        c_ = atom("contains", c0.r(), x_[2] if x_[1] == elr_ else x_[1])
+                    if c_ is not None:
+                        # `iter().any(|x| x == K)` / `matches!(x, K)` is `contains(&K)`
+                        self.atom_vals[c_[1]] = (body, Sel(c0, "[]"), args[0])
+                        return BoolV(c_)
                 a_ = atom(last, c0.r(), F.show(body))
                 self.atom_vals[a_[1]] = (body, Sel(c0, "[]"), args[0])
                 return BoolV(a_)
@@ -1561,6 +1612,12 @@ class Interp:
             new_helper = tgt not in known_fns(self.crate.name) and tgt not in self.fn_stack
             if carries or is_bool or tgt in self.inline_always:
                 return self.call_body(tgt, body, args)
+            if self._trivial_accessor(tgt, body) and tgt not in self.fn_stack:
+                # `fn params(&self) -> &P { &self.params }`: the call is the field selection (the accessor's name stays
+                # visible as a transparent adaptor, so provenance rules still see it)
+                via_ = Via(last, self.call_body(tgt, body, args), tgt)
+                via_.node = n
+                return via_
             if new_helper:
                 self.inlined.add(tgt)
                 return Via("inlined", self.call_body(tgt, body, args), tgt)
